@@ -27,6 +27,28 @@ fn jbool(b: Option<bool>) -> &'static str {
     }
 }
 
+// what the standard adaptors make of an iterator: nth(n) and what is left after it, count, last, skip(n), step_by(n + 1).
+// `len_of` gives the exact remaining length after nth where the iterator promises one (-1 otherwise).
+fn adaptors<T, I: Iterator<Item = T>>(mk: &dyn Fn() -> I, n: usize, len_of: &dyn Fn(&I) -> i64, fmt: &dyn Fn(&T) -> String) -> String {
+    let r = guard(|| {
+        let mut it = mk();
+        let x = it.nth(n);
+        let l = len_of(&it);
+        let hint = it.size_hint();
+        let rest: Vec<String> = it.take(6000).map(|t| fmt(&t)).collect();
+        let hint_ok = hint.0 <= rest.len() && hint.1.map_or(true, |u| u >= rest.len());
+        let count = mk().take(6000).count();
+        let last = mk().last();
+        let skip: Vec<String> = mk().skip(n).take(6000).map(|t| fmt(&t)).collect();
+        let step: Vec<String> = mk().step_by(n + 1).take(6000).map(|t| fmt(&t)).collect();
+        format!(
+            "{{\"k\":\"ok\",\"n\":{},\"nth\":[{}],\"len\":{},\"hint\":{},\"rest\":[{}],\"count\":{},\"last\":[{}],\"skip\":[{}],\"step\":[{}]}}",
+            n, x.map_or(String::new(), |t| fmt(&t)), l, hint_ok, rest.join(","), count, last.map_or(String::new(), |t| fmt(&t)), skip.join(","), step.join(",")
+        )
+    });
+    r.unwrap_or_else(|| format!("{{\"k\":\"panic\",\"n\":{},\"nth\":[],\"len\":0,\"hint\":false,\"rest\":[],\"count\":0,\"last\":[],\"skip\":[],\"step\":[]}}", n))
+}
+
 fn gbb(f: impl FnOnce() -> BitBoard) -> String {
     match guard(f) {
         Some(b) => format!("{{\"k\":\"ok\",\"v\":{}}}", jbb(b)),
@@ -109,9 +131,11 @@ pub fn run_bb(args: &Args) {
             let into: Vec<u8> = a.into_iter().map(|s| s as u8).collect();
             (seq, lens, hints.iter().all(|&h| h), into)
         });
+        let n_ad = if rng.chance(1, 4) { a.len() as usize + rng.below(3) as usize } else { rng.below(a.len() as u64 + 1) as usize };
+        let ad = adaptors(&|| a.iter(), n_ad, &|it| it.len() as i64, &|s: &Square| (*s as u8).to_string());
         match it {
-            Some((seq, lens, hints, into)) => sh.emit("bb_iter", &format!("\"a\":{},\"k\":\"ok\",\"seq\":{},\"lens\":{},\"hints\":{},\"into\":{}", jbb(a), jlist(&seq), jlist(&lens), hints, jlist(&into))),
-            None => sh.emit("bb_iter", &format!("\"a\":{},\"k\":\"panic\",\"seq\":[],\"lens\":[],\"hints\":false,\"into\":[]", jbb(a))),
+            Some((seq, lens, hints, into)) => sh.emit("bb_iter", &format!("\"a\":{},\"k\":\"ok\",\"seq\":{},\"lens\":{},\"hints\":{},\"into\":{},\"ad\":{}", jbb(a), jlist(&seq), jlist(&lens), hints, jlist(&into), ad)),
+            None => sh.emit("bb_iter", &format!("\"a\":{},\"k\":\"panic\",\"seq\":[],\"lens\":[],\"hints\":false,\"into\":[],\"ad\":{}", jbb(a), ad)),
         }
         // subset iteration on masks of up to `bits` bits (the empty mask first: it has exactly one subset)
         if i % 4 == 0 {
@@ -131,9 +155,12 @@ pub fn run_bb(args: &Args) {
                 }
                 v
             });
+            let total = 1usize << m.len().min(13);
+            let n_ad = if rng.chance(1, 4) { total + rng.below(2) as usize } else { rng.below(total as u64) as usize };
+            let ad = adaptors(&|| m.iter_subsets(), n_ad, &|_| -1, &|x: &BitBoard| jbb(*x));
             match subs {
-                Some(v) => sh.emit("bb_subsets", &format!("\"a\":{},\"k\":\"ok\",\"subs\":[{}]", jbb(m), v.join(","))),
-                None => sh.emit("bb_subsets", &format!("\"a\":{},\"k\":\"panic\",\"subs\":[]", jbb(m))),
+                Some(v) => sh.emit("bb_subsets", &format!("\"a\":{},\"k\":\"ok\",\"subs\":[{}],\"ad\":{}", jbb(m), v.join(","), ad)),
+                None => sh.emit("bb_subsets", &format!("\"a\":{},\"k\":\"panic\",\"subs\":[],\"ad\":{}", jbb(m), ad)),
             }
         }
     }
@@ -221,7 +248,10 @@ pub fn pm_event(sh: &mut Shards, all: &[Move], pm: PieceMoves, origin: &str) {
             None => has_panics += 1,
         }
     }
-    let head = format!("\"src\":\"{}\",\"piece\":{},\"from\":{},\"to\":{}", origin, pm.piece as u8 + 1, pm.from as u8, jbb(pm.to));
+    let total = guard(|| pm.into_iter().take(300).count()).unwrap_or(0);
+    let n_ad = (pm.from as usize * 7 + pm.to.len() as usize * 3 + total) % (total + 2);
+    let ad = adaptors(&|| pm.into_iter(), n_ad, &|it| it.len() as i64, &|m: &Move| jmove(*m));
+    let head = format!("\"src\":\"{}\",\"piece\":{},\"from\":{},\"to\":{},\"ad\":{}", origin, pm.piece as u8 + 1, pm.from as u8, jbb(pm.to), ad);
     match r {
         Some((len, empty, seq, lens, hints)) => sh.emit(
             "pm",
@@ -347,6 +377,7 @@ pub fn run_coord(args: &Args) {
         }
         // the panicking variant inside its documented domain only
         let mut off_bad = vec![];
+        let mut off = vec![];
         for df in -7i32..=7 {
             for dr in -7i32..=7 {
                 let e = s.try_offset(df as i8, dr as i8);
@@ -354,10 +385,12 @@ pub fn run_coord(args: &Args) {
                 if e.is_some() != g.is_some() || (e.is_some() && e != g) {
                     off_bad.push(format!("[{},{}]", df, dr));
                 }
+                // what the panicking variant did: the square, or -1 for a panic
+                off.push(format!("[{},{},{}]", df, dr, g.map_or(-1, |x| x as i32)));
             }
         }
         panics.truncate(400);
-        sh.emit("offs", &format!("\"s\":{},\"full\":{},\"range\":{},\"tried\":{},\"some\":[{}],\"panics\":[{}],\"offset_bad\":[{}]", s as u8, full, jlist(&range), tried, some.join(","), panics.join(","), off_bad.join(",")));
+        sh.emit("offs", &format!("\"s\":{},\"full\":{},\"range\":{},\"tried\":{},\"some\":[{}],\"panics\":[{}],\"offset_bad\":[{}],\"off\":[{}]", s as u8, full, jlist(&range), tried, some.join(","), panics.join(","), off_bad.join(","), off.join(",")));
     }
     sh.next_history();
     let ff: Vec<String> = File::ALL.iter().map(|&f| format!("[{},{},{}]", f as u8, f.flip() as u8, File::index(f as usize) as u8)).collect();
